@@ -179,6 +179,29 @@ pub fn check(ctx: &mut Ctx, c: &Case) -> Outcome {
     }
     let matched = lines(&r1.stdout);
     let visited = lines(&rall.stdout);
+    // The set that may be touched at all is fixed independently of the code under test: the
+    // reference walk of the starting points under this follow mode (a walk that strays through a
+    // link it must not follow would otherwise list and delete consistently, and go unnoticed).
+    {
+        use crate::engine::fsx::{ref_paths, FollowMode, WalkOpts};
+        let fm = [FollowMode::P, FollowMode::H, FollowMode::L][c.follow as usize];
+        let wo = WalkOpts { follow: fm, depth_first: true, min_depth: c.mindepth.unwrap_or(0), max_depth: c.maxdepth.unwrap_or(usize::MAX), as_other: false };
+        let mut reference: Vec<String> = vec![];
+        let mut loops = false;
+        for r in &roots {
+            let (es, evs) = ref_paths(r, &wo);
+            reference.extend(es.into_iter().map(|e| e.path));
+            loops |= !evs.is_empty();
+        }
+        if !loops && reference != visited {
+            let extra: Vec<&String> = visited.iter().filter(|v| !reference.contains(v)).take(5).collect();
+            let missing: Vec<&String> = reference.iter().filter(|v| !visited.contains(v)).take(5).collect();
+            return fail(
+                format!("C10:entries-outside-the-reference-walk-would-be-touched:{flag}"),
+                format!("find {}\nvisited but not in the reference walk: {extra:?}\nin the reference walk but not visited: {missing:?}", a_all.join(" ")),
+            );
+        }
+    }
     // link counts of other names of a removed hard link necessarily change: not compared
     let snap = || {
         let mut m = snapshot("c");
